@@ -34,9 +34,11 @@ type Run struct {
 	mu        sync.Mutex
 	fin       map[string]int // finish messages per seed id
 	produced  int64
+	added     int64
 	perturb   bool
 	ctr       atomic.Uint64
 	extra     func(point string, a ...any) // property-specific handler, called before recording
+	annotate  func(ev map[string]any)      // property-specific labels added to origin and outlink events
 	started   bool
 	lastEvent atomic.Int64 // unix nanos of the last hook / origin event (idle detection)
 }
@@ -90,7 +92,13 @@ func NewRun(dir, tracePath string, nhosts int, mutate func(c *config.Config)) (*
 	tr.Sync = true
 	tr.Stamp = true
 	r := &Run{tr: tr, dir: dir, fin: map[string]int{}}
-	r.org, err = origin.New(nhosts, func(ev map[string]any) { r.touch(); tr.Emit(ev) })
+	r.org, err = origin.New(nhosts, func(ev map[string]any) {
+		r.touch()
+		if r.annotate != nil {
+			r.annotate(ev)
+		}
+		tr.Emit(ev)
+	})
 	if err != nil {
 		return nil, err
 	}
@@ -109,7 +117,13 @@ func NewRun(dir, tracePath string, nhosts int, mutate func(c *config.Config)) (*
 func (r *Run) touch() { r.lastEvent.Store(time.Now().UnixNano()) }
 
 func (r *Run) hook(point string, a ...any) {
-	if !strings.HasPrefix(point, "watch.") {
+	idlePoll := strings.HasPrefix(point, "watch.")
+	if point == "lq.claim" { // the consumer polls the queue four times a second: an empty claim is not activity
+		if u, ok := a[0].([]sqlc_model.Url); ok && len(u) == 0 {
+			idlePoll = true
+		}
+	}
+	if !idlePoll {
 		r.touch()
 	}
 	if r.perturb {
@@ -133,7 +147,11 @@ func (r *Run) hook(point string, a ...any) {
 		seed := a[0].(*models.Item)
 		outs := []map[string]any{}
 		for _, o := range a[2].([]*models.Item) {
-			outs = append(outs, map[string]any{"id": o.GetID(), "u": o.GetURL().Raw, "via": o.GetSeedVia(), "hops": o.GetURL().GetHops()})
+			om := map[string]any{"ev": "outlink", "id": o.GetID(), "u": o.GetURL().Raw, "via": o.GetSeedVia(), "hops": o.GetURL().GetHops()}
+			if r.annotate != nil {
+				r.annotate(om)
+			}
+			outs = append(outs, om)
 		}
 		r.tr.Emit(map[string]any{"ev": point, "id": seed.GetID(), "w": a[1], "st": seed.GetStatus().String(), "tree": project(seed), "outlinks": outs})
 	case "fin.produce":
@@ -181,6 +199,7 @@ func (r *Run) hook(point string, a ...any) {
 		r.tr.Emit(map[string]any{"ev": point, "ids": ids})
 	case "lq.add":
 		vals := []map[string]any{}
+		atomic.AddInt64(&r.added, int64(len(a[0].([]sqlc_model.Url))))
 		for _, u := range a[0].([]sqlc_model.Url) {
 			vals = append(vals, map[string]any{"value": u.Value, "via": u.Via, "hops": u.Hops})
 		}
@@ -289,6 +308,23 @@ func (r *Run) WaitFinished(ids []string, timeout, idle time.Duration) bool {
 			return false
 		}
 		time.Sleep(10 * time.Millisecond)
+	}
+	return false
+}
+
+// WaitDrained waits until the queue holds no row any more, the reactor tracks nothing and nothing has
+// happened for a second (outlinks are queued and crawled too; finish acknowledgements are batched).
+func (r *Run) WaitDrained(timeout time.Duration) bool {
+	deadline := time.Now().Add(timeout)
+	for time.Now().Before(deadline) {
+		rows, err := r.Rows()
+		if err != nil && os.Getenv("VERIF_DEBUG") != "" {
+			fmt.Fprintln(os.Stderr, "rows:", err)
+		}
+		if err == nil && len(rows) == 0 && len(r.StateTable()) == 0 && atomic.LoadInt64(&r.added) >= atomic.LoadInt64(&r.produced) && time.Since(time.Unix(0, r.lastEvent.Load())) > time.Second {
+			return true
+		}
+		time.Sleep(100 * time.Millisecond)
 	}
 	return false
 }
